@@ -157,10 +157,46 @@ class Store:
                 return True
         return False
 
-    def _producer_kind(self, fn: ast.AST) -> str:
+    def _shared_container(self, owner: ast.AST, fn: ast.AST) -> bool:
+        """``owner`` names a container that outlives one store object: a module-level name (not re-bound locally),
+        an attribute of the class object (``Cls.X``, ``type(self).X``, ``cls.X``) or a class-level attribute read through self."""
+        a = _self_attr(owner)
+        if a is not None:
+            return self._class_level(a)
+        if isinstance(owner, ast.Name):
+            local = any(isinstance(n, ast.Name) and n.id == owner.id and isinstance(n.ctx, ast.Store) for n in ast.walk(fn))
+            return not local
+        if isinstance(owner, ast.Attribute):
+            base = owner.value
+            if isinstance(base, ast.Name) and base.id in (self.name, "cls"):
+                return True
+            if isinstance(base, ast.Call) and call_name(base) == "type":
+                return True
+            if isinstance(base, ast.Attribute) and base.attr == "__class__":
+                return True
+        return False
+
+    def _producer_kind(self, fn: ast.AST, depth: int = 1) -> str:
+        """How the lock returned by this provider comes to exist.  Registry evidence: the provider stores into /
+        looks up a container that outlives the instance (subscript store, setdefault, get, subscript load)."""
         rets = [n for n in walk_shallow(fn) if isinstance(n, ast.Return) and n.value is not None]
         if not rets:
             raise AnchorError(f"C20: lock provider {self.name}.{fn.name} returns nothing")
+        registry = False
+        for n in walk_shallow(fn):
+            if isinstance(n, ast.Subscript) and self._shared_container(n.value, fn):
+                registry = True
+            if isinstance(n, ast.Call) and isinstance(n.func, ast.Attribute) and n.func.attr in ("setdefault", "get") and self._shared_container(n.func.value, fn):
+                registry = True
+            if isinstance(n, ast.Call) and depth > 0:
+                nm = call_name(n)
+                if nm and "." not in nm and nm in self.m.functions and self._contains_lock_ctor(self.m.functions[nm], 0):
+                    if self._producer_kind(self.m.functions[nm], depth - 1) == "registry":
+                        registry = True
+        if registry:
+            return "registry"
+        if any(last(call_name(c)) == "Lock" for c in calls(fn)):
+            return "per-instance"
         kinds = {self._value_kind(expand(r.value, r)) for r in rets}
         return "per-instance" if "per-instance" in kinds else sorted(kinds)[0]
 
